@@ -65,6 +65,19 @@ def _upper8(args):
     return _upper(args)
 
 
+@pure('u8::to_ascii_lowercase')
+def _lower8(args):
+    return _lower(args)
+
+
+for _n, _f in (('is_ascii', lambda c: c <= 0x7F), ('is_ascii_lowercase', lambda c: 0x61 <= c <= 0x7A),
+               ('is_ascii_uppercase', lambda c: 0x41 <= c <= 0x5A),
+               ('is_ascii_alphabetic', lambda c: 0x41 <= c <= 0x5A or 0x61 <= c <= 0x7A),
+               ('is_ascii_digit', lambda c: 0x30 <= c <= 0x39)):
+    for _t in ('char', 'u8'):
+        PURE['%s::%s' % (_t, _n)] = (lambda args, _f=_f: int(_f(args[0])))
+
+
 class Walker:
     """concrete/unknown partial evaluator of one function body for one tracked variable"""
 
